@@ -30,7 +30,7 @@ OUTSIDE = ["mapping / condition / combiner functions other than the fixed ones l
            "round-robin scheduler"]
 ASSUMES = ["default (eager) scheduler; callers are AdapterTrans transactions, targets are Adapter mocks with free readiness and results",
            "fixed functions: MethodMap i_transform a -> a+1 / o_transform y -> ~y; field swap (u,v)->(p=v,q=u) and (r,s)->(s2=s,r2=r); mapping by mocked Methods; "
-           "MethodFilter condition = bit 0 of the argument (or a mocked 1-bit Method), default in {None (zero), constant with all bits but bit 0 set}; "
+           "MethodFilter condition = bit 0 of the argument (or a mocked 1-bit Method, or - without use_condition - the whole multi-bit argument, non-zero = true; a multi-bit condition with use_condition=True is outside the claim: the library truncates it to one bit), default in {None (zero), constant with all bits but bit 0 set}; "
            "MethodProduct combiner in {default (first result), xor of all results}; MethodTryProduct combiner in {default (empty), (Cat of success bits, Cat of results)}",
            "callers of one harness may conflict (CrossbarConnectTrans transactions sharing a method, Collector's per-target transactions): there the statements are "
            "implications plus 'no runnable pair is left waiting by both of its methods' / 'a ready target is taken when the slot is free' (eager scheduler) instead of iff",
@@ -86,6 +86,8 @@ def make(cfg):
             c = Adapter(i=[("d", w)], o=[("ok", 1)])
             mocks["c"] = c
             cond = c.iface
+        elif cfg["cond"] == "fnw":
+            cond = lambda m, arg: arg.d  # multi-bit condition value: non-zero is true (Amaranth/`m.If` semantics)
         else:
             cond = lambda m, arg: arg.d[0]
         d = MethodFilter.create(t.iface, cond, default, use_condition=cfg["use_condition"])
@@ -138,6 +140,8 @@ def configs(tier, seed):
             for df in ("none", "const"):
                 out.append(dict(kind="filter", w=w, use_condition=uc, cond="fn", default=df))
         out.append(dict(kind="filter", w=w, use_condition=False, cond="meth", default="const"))
+        if w > 1:
+            out.append(dict(kind="filter", w=w, use_condition=False, cond="fnw", default="const"))
         for nt in (1, 2, 3) if q else (1, 2, 3, 4):
             for cb in ("default", "xor"):
                 out.append(dict(kind="product", w=w, nt=nt, combiner=cb))
@@ -235,7 +239,7 @@ def spec_onecycle(cfg, o):
         wit["blocked by the target"] = z3.And(o.en("m"), z3.Not(o.done("m")))
     elif k == "filter":
         meth = cfg["cond"] == "meth"
-        cond = (o.arg("c") != 0) if meth else bit(o.arg("m"), 0)
+        cond = (o.arg("c") != 0) if meth else ((o.arg("m") != 0) if cfg["cond"] == "fnw" else bit(o.arg("m"), 0))
         dflt = z3.BitVecVal(0 if cfg["default"] == "none" else (((1 << w) - 1) & ~1 if w > 1 else 1), w)
         if cfg["use_condition"]:
             ob.append(("method runs iff called and (condition false or target ready): not blocked by the target when the condition is false",
